@@ -113,6 +113,86 @@ theorem C15_roundtrip_shape_exact (p : Packet) (hb : Built p) (hwf : WF p)
     intro d hd'
     simpa using hpos s hs d hd'
 
+/-! ### Histories: one reused packet, several encodings
+
+`encode` is a function of the packet alone, so an encoding cannot depend on what is encoded later; what has
+to be shown is that every packet a history encodes — the reused packet at each `Bytes()` call and every
+`MakePretendPacket` copy — is constructible, so that `C15_roundtrip` applies to each of them.  (At run time the
+driver compares every slice the real `Bytes()` returned, looked at after the last step, with this.) -/
+
+def ValidOp : Op → Prop
+  | .setTs t _ => t < 18446744073709551616
+  | .newData w dims vals => ValidData (buildData w vals) ∧ ValidDims dims
+  | _ => True
+
+def ValidStep : HStep → Prop
+  | .op o => ValidOp o
+  | .enc => True
+  | .fill sq _ => sq < 4294967296
+
+theorem buildData_typed (w : Nat) (vals : List Int) : (buildData w vals).typed = true := by
+  unfold buildData; split
+  · rfl
+  · split <;> rfl
+
+theorem stepOp_built (p p' : Packet) (o : Op) (hb : Built p) (hv : ValidOp o) (h : stepOp p o = .ok p') :
+    Built p' := by
+  cases o with
+  | setTs t r =>
+    simp only [stepOp, Except.ok.injEq] at h; subst h
+    exact Built.setTs _ hb ⟨hv, Nat.zero_lt_succ _, Nat.zero_lt_succ _⟩
+  | resetTs => simp only [stepOp, Except.ok.injEq] at h; subst h; exact Built.resetTs hb
+  | clear => simp only [stepOp, Except.ok.injEq] at h; subst h; exact Built.clear hb
+  | newData w dims vals => exact Built.data _ dims hb (buildData_typed w vals) hv.1 hv.2 h
+
+theorem C15_history_built (steps : List HStep) (p : Packet) (i : Nat) (ps : List Packet) (hb : Built p)
+    (hv : ∀ s ∈ steps, ValidStep s) (h : runHist p steps i = .ok ps) : ∀ q ∈ ps, Built q := by
+  induction steps generalizing p i ps with
+  | nil => simp only [runHist, Except.ok.injEq] at h; subst h; simp
+  | cons st r ih =>
+    have hr : ∀ s ∈ r, ValidStep s := fun s hs => hv s (by simp [hs])
+    have hst : ValidStep st := hv st (by simp)
+    cases st with
+    | op o =>
+      simp only [runHist] at h
+      split at h
+      · rename_i p' hp'
+        exact ih p' (i + 1) ps (stepOp_built p p' o hb hst hp') hr h
+      · cases h
+    | enc =>
+      simp only [runHist] at h
+      split at h
+      · rename_i l hl
+        simp only [Except.ok.injEq] at h; subst h
+        intro q hq
+        simp only [List.mem_cons] at hq
+        rcases hq with rfl | hq
+        · exact hb
+        · exact ih p (i + 1) l hb hr hl q hq
+      · cases h
+    | fill sq n =>
+      simp only [runHist] at h
+      split at h
+      · cases h
+      · rename_i q0 hq0
+        split at h
+        · rename_i l hl
+          simp only [Except.ok.injEq] at h; subst h
+          intro q hq
+          simp only [List.mem_cons] at hq
+          rcases hq with rfl | hq
+          · exact Built.pretend sq n hb hst hq0
+          · exact ih p (i + 1) l hb hr hl q hq
+        · cases h
+
+/-- every encoding produced in a history decodes back to the packet it was made from, whatever is encoded
+after it -/
+theorem C15_history_roundtrip (steps : List HStep) (p : Packet) (i : Nat) (ps : List Packet) (hb : Built p)
+    (hv : ∀ s ∈ steps, ValidStep s) (h : runHist p steps i = .ok ps) (q : Packet) (hq : q ∈ ps) (hwf : WF q) :
+    ∃ bs q', encode q = .ok bs ∧ decodeC bs = (.ok q', bs.length) ∧
+      ∀ reads pseq pn, rtOK (summarize q) bs.length (observe q' bs.length reads pseq pn) = true :=
+  C15_roundtrip q (C15_history_built steps p i ps hb hv h q hq) hwf
+
 /-! ### Non-vacuity -/
 
 /-- a valid datagram: version 3, header 40, payload 16, offset TLV (5), format "<h", shape [4], 8 samples -/
